@@ -88,6 +88,7 @@ def run(tier="quick", seed=0, pid="C13"):
         outside = [v for v in near_misses(words, rnd, 4 if tier == "quick" else 20) if 1 <= len(v) <= MAX_LEN]
         vals = vals + outside
         lang = set(words)
+        prefix_mode_unusable = False
         for w in vals:
             parser = IterativeParser(grammar.rules)
             whole, to = with_budget(lambda: complete_parses(parser, "<start>", [w]))
@@ -95,10 +96,18 @@ def run(tier="quick", seed=0, pid="C13"):
                 timeouts += 1
                 continue
             # the same in prefix (INCOMPLETE) mode, where consume() also reports partial trees: only the trees flagged complete count
-            try:
-                whole_inc, to_inc = with_budget(lambda: prefix_mode_parses(grammar, [w]))
-            except _NotJudged:
+            # (a spec whose prefix-mode request does not end within the budget -- C06's subject, e.g. `*` over a regex terminal --
+            # is not compared in prefix mode: one over-budget request is enough to know)
+            if prefix_mode_unusable:
                 whole_inc, to_inc = None, True
+            else:
+                try:
+                    whole_inc, to_inc = with_budget(lambda: prefix_mode_parses(grammar, [w]), 8)
+                except _NotJudged:
+                    whole_inc, to_inc = None, True
+                if to_inc and whole_inc is None:
+                    prefix_mode_unusable = True
+                    timeouts += 1
             for comp in compositions(len(w)):
                 if len(comp) == 1:
                     continue
